@@ -584,7 +584,7 @@ impl TraceOracle for C10 {
             };
             if !data_ignored {
                 if rejoined {
-                    if !(r.after.id != r.before.id && r.after.id.addr == r.before.id.addr && r.after.id.gen > r.before.id.gen) {
+                    if !(r.after.id != r.before.id && r.after.id.addr == r.before.id.addr && foca::Identity::win_addr_conflict(&r.after.id, &r.before.id)) {
                         f.push(finding("renewed identity differs from and wins against the old one", "C10:rejoin-not-winning".into(), format!("{} -> {}", r.before.id.text(), r.after.id.text())));
                     }
                 } else if !(defunct || was_undead) || r.after.hid.connection_state != 2 {
